@@ -1,11 +1,11 @@
 SPECIFICATION Spec
 CONSTANTS
-  Scripts <- ZeroMsg
+  Scripts <- NonZero
   Direct = FALSE
   ForwardHalfClose = TRUE
   JoinBeforeError = FALSE
   NeedFirstMessage = TRUE
-  InterruptibleRecv = TRUE
+  InterruptibleRecv = FALSE
   FirstSendEOFFatal = FALSE
-INVARIANTS TranscriptEquivalence BackendSawPrefix BackendSawAll NoPumpOutlivesHandler
+INVARIANTS NoPumpOutlivesHandler
 PROPERTY Finishes
